@@ -17,6 +17,10 @@ OBLIGATIONS.append(dict(name="record_reader", src="recio.c", include=["toolutils
     functions=["toolutils.c:ReadRecordHeader", "toolutils.c:SkipRecord", "toolutils.c:ReadRelocInfo", "toolutils.c:DestroyRelocInfo", "toolutils.c:Granularity"], timeout=900,
     bounds="every file of 0..10 arbitrary bytes; relocation tables with more than 2 entries exceed the unwinding bound (reported, not passed)",
     assumes=["stdio replaced by the memory-file model"]))
+OBLIGATIONS.append(dict(name="reloc_info", src="recio.c", include=["toolutils.c"], defs=["NB=48", "K_RELOC", "STRINGSIZE=16"], object_bits=12, mem_gb=16, unwind=10, unwind_fn={"harness": 50}, timeout=900,
+    functions=["toolutils.c:ReadRelocInfo", "toolutils.c:DestroyRelocInfo"],
+    bounds="relocation-info record body of 0..48 arbitrary bytes with at most 1 relocation entry, 1 export entry and a 3-byte string table",
+    assumes=["stdio replaced by the memory-file model", "malloc succeeds"]))
 for _o in list(OBLIGATIONS[:3]):
     _s = dict(_o); _s["name"] = _o["name"].replace("_bytes", "_fields"); _s["defs"] = [d for d in _o["defs"] if not d.startswith("NB=") and d != "GOOD_MAGIC"] + ["STRUCTURED", "CF_R=2", "CF_L=2"]
     _s["bounds"] = "code file of 2 records with unconstrained header fields (granularity/segment/CPU 0..255, length 0..2, kinds long/short/entry/$82/absent), truncated at any length"
